@@ -508,7 +508,8 @@ def run(ctx):
                          "cases_where_a_batch_was_split_by_the_input_ring_wrapping": n_split_reads}
     cov["pipeline_runs"] = pipe
     cov["samples"] = samples + ex.samples[:3]
-    cov["exhaustive"] = {"what": "window sizes 2..5 x 0..3k+2 input frames; for inputs of up to %d frames EVERY way of cutting the input into "
+    cov["exhaustive"] = False
+    cov["exhaustive_part"] = {"what": "window sizes 2..5 x 0..3k+2 input frames; for inputs of up to %d frames EVERY way of cutting the input into "
                                  "batches (2^(n-1) compositions), larger inputs: one batch, all singletons and random partitions" % (8 if thorough else 6),
                          "cases": n_exh}
     cov["rule"] = ("unit case = one script (window size, ring capacities, ring fill byte, frames with seeded pixels of a sample type, batch boundaries, "
